@@ -216,6 +216,12 @@ impl Property for C17 {
             }
             let got: Vec<Vec<Tet>> = hc.req.tetraplets.iter().map(|v| v.iter().map(tet_of).collect()).collect();
             if !cands.iter().any(|c| c.tetraplets == got) {
+                if r.stats.equal_stream_values_of_different_provenance && r.stats.canons > 0 {
+                    // equal values appended by different peers: the sequential reading cannot tell
+                    // which of them a canon index selects on the canonicalizing peer (not judged)
+                    rep.classes.push("ambiguous_equal_stream_values".into());
+                    continue;
+                }
                 let c = cands[0];
                 let k = (0..got.len().max(c.tetraplets.len())).find(|k| got.get(*k) != c.tetraplets.get(*k)).unwrap_or(0);
                 let field = match (got.get(k).and_then(|v| v.first()), c.tetraplets.get(k).and_then(|v| v.first())) {
